@@ -299,6 +299,11 @@ def _lower_once(text, ctr, log, ctx):
         if r is not None:
             log.append(("R11", ch.src()))
             return text[:ch.start] + r + text[ch.end:]
+    mu = re.search(r"\bfor\s+_\s+in\b", text)
+    if mu:
+        n = ctr.next("R17")
+        log.append(("R17", mu.group(0)))
+        return text[:mu.start()] + "for vi_%d in" % n + text[mu.end():]
     m = _find_for_container(text, ctx)
     if m:
         a, b, repl, orig, rule = m
